@@ -104,3 +104,6 @@ W("zonal:trim", "raster", identity=False, props=("C18",),
   numpy="raster[_trim(raster.data, values)[0]:_trim(raster.data, values)[1] + 1, _trim(raster.data, values)[2]:_trim(raster.data, values)[3] + 1]")
 W("zonal:crop", "values", identity=False, props=("C18",),
   numpy="values[_crop(zones.data, zones_ids)[0]:_crop(zones.data, zones_ids)[1] + 1, _crop(zones.data, zones_ids)[2]:_crop(zones.data, zones_ids)[3] + 1]")
+
+# ---- generators that take a template raster: same dims / coords / attrs
+W("perlin:perlin", "agg", props=("C10",))
